@@ -20,9 +20,9 @@ def tran_cmd(a, o=None):
     if k in ("send", "recv") and a.get("fail"):
         return "failat %d\n" % a["fail"] + tran_cmd(dict(a, fail=0))
     if k == "send":
-        return "send %d %d %d %d %d %s %d" % (a["op"], a["k"], a["s"], a["m"], a["h"], a["sh"], 1 if a["shared"] else 0)
+        return "send %d %d %d %d %d %s %d %d" % (a["op"], a["k"], a["s"], a["m"], a["h"], a["sh"], 1 if a["shared"] else 0, a.get("tmo", 0))
     if k == "recv":
-        return "recv %d %d %d" % (a["op"], a["k"], a["s"])
+        return "recv %d %d %d %d" % (a["op"], a["k"], a["s"], a.get("tmo", 0))
     if k == "cancel":
         return "cancel %d" % a["op"]
     if k == "pclose":
